@@ -318,7 +318,7 @@ def run(ctx):
         "harness on 6 values at every start)",
         "the reference generator is a from-the-paper MT19937 in Python, validated against the C++ standard's check value "
         "(10000th output for seed 5489)",
-        "uniform_real intervals have max-min finite (the usual precondition of a uniform real distribution)",
+        "uniform_real intervals have max-min finite (the precondition of std::uniform_real_distribution); wider ones are not asked",
         "exponential / normal go through libm: compared within 1e-12 relative; uniform_int / uniform_real bit-exact",
     ], violations, ENGINE)
 
